@@ -2,12 +2,13 @@
 
 Explicit-state search over job HISTORIES, every state being a live interpreter (engine E2, fork-tree variant).
 
-Job alphabet J (JSON descriptors, see jobs()):
+Job alphabet J (JSON descriptors, see build_jobs()):
   patch   (old, new) pairs of the shipped corpus /repo/tests/annet/test_patch with the shipped rulebook of 6 vendors (+ a
           second hardware model of one vendor), through annet.api._diff_and_patch -> cmd_paths -> apply_deploy_rulebook;
           with and without a compiled ACL obtained from compile_acl_text (lru_cached: jobs of one vendor share the very
           same compiled ACL object, as in production), one with a RefTracker (Orderer.insert/merge_dicts on the cached
-          ordering rulebook);
+          ordering rulebook); one hand-written pair run on two hardware models of one vendor whose rendered rulebooks
+          differ (so that a rulebook cached under too coarse a key is visible in the result);
   order   annet.patching.Orderer(get_rulebook(hw)["ordering"], vendor).order_config(new);
   synth   synthetic rulebook texts (two jobs per text, so the compiled object is shared) whose %logic writes to its rule
           argument (common.default_instead_undo, huawei.bgp.undo_commit, cisco.misc.ssh_key) and whose configurations
@@ -85,6 +86,10 @@ PAIRS = collections.OrderedDict([
     ("huawei ce", ["huawei_iface_ip_vpn_binding.yaml #1"]),
 ])
 ORDER_VENDORS = ["huawei", "cisco", "arista", "juniper"]
+# the same hand-written pair on two hardware models of one vendor: huawei.rul renders 'trust *' for CE and 'trust' otherwise,
+# so the two jobs have different patches; a rulebook cached under too coarse a key shows as a history-dependent result
+HW_PAIR = {"old": [["interface 10GE1/0/1", [["trust dscp", []]]]], "new": [["interface 10GE1/0/1", [["trust 8021p", []]]]]}
+HW_PAIR_VENDORS = ["huawei", "huawei ce"]
 # one ACL text per vendor, shared by the jobs of that vendor (each drops at least one top-level row of one of the pairs)
 ACLS = {
     "huawei": "interface *\n    ~ %global\nbgp <asn>\n    ~ %global\nrsa peer-public-key user1 ~\n    ~ %global\n"
@@ -283,6 +288,10 @@ def build_jobs():
                          "new": s["new"], "add_comments": True, "id": "patch/huawei/undo_bgp+ref", "jk": "patch+ref",
                          "ref_track": {"ref": [["bgp 64496", [["peer 10.0.0.1 as-number 1", []]]]],
                                        "def": [["interface MEth0/0/0", []], ["ip route-static ~", []]]}})
+    for vendor in HW_PAIR_VENDORS:
+        jobs.append({"kind": "patch", "vendor": vendor, "model": HW_MODELS[vendor], "sample": "<hand-written trust pair>",
+                     "old": HW_PAIR["old"], "new": HW_PAIR["new"], "add_comments": False,
+                     "id": "patch/%s/trust" % vendor, "jk": "patch"})
     for vendor in ORDER_VENDORS:
         s = corpus[PAIRS[vendor][0]]
         jobs.append({"kind": "order", "vendor": vendor, "model": s["model"], "sample": PAIRS[vendor][0], "new": s["new"],
@@ -309,7 +318,7 @@ def setup():
     _JOBS = build_jobs()
     _JOB = {j["id"]: j for j in _JOBS}
     assert len(_JOB) == len(_JOBS)
-    s = statehash.global_fingerprint()
+    s = statehash.global_fingerprint(REQUIRED_GLOBALS)
     _TEMPLATE, _TEMPLATE_TOTAL = dict(s.digests), s.total()
     _TEMPLATE_COLD = template_is_cold()
 
@@ -363,7 +372,7 @@ def _acl_scratch(acls):
 def _warm(job, hw_model):
     """names of the compiled objects this job will use that exist already (measured before the job runs)"""
     from annet import rulebook
-    from annet.annlib.rbparser import acl as racl, ordering as rord
+    from annet.annlib.rbparser import acl as racl
     from annet.rulebook import patching as rpat
     out = []
     prov = rulebook.rulebook_provider_connector._cache
@@ -447,7 +456,7 @@ def run_job(job):
         scratch_a = _acl_scratch([acl, facl])
     except Exception:  # noqa  harness-level failure around the call (set-up of the job itself)
         res["exception"] = "SETUP " + traceback.format_exc()[-600:]
-    s = statehash.global_fingerprint()
+    s = statehash.global_fingerprint(REQUIRED_GLOBALS)
     changed = {k: v for k, v in s.digests.items() if _TEMPLATE.get(k) != v}
     gone = [k for k in _TEMPLATE if k not in s.digests]
     return {"job": job["id"], "res": res, "before": snap_b, "after": snap_a, "scratch": [scratch_b, scratch_a],
@@ -472,7 +481,7 @@ def node_main(history, nexts, scan=False):
 
 # ---------------------------------------------------------------------------------------------------
 # judging
-RESULT_KEYS = ["exception", "diff", "diff_attrs", "patch", "cmd_paths", "deploy", "ordered", "ordered_from_hw"]
+RESULT_KEYS = ["exception", "diff", "cmd_paths", "deploy", "patch", "ordered", "ordered_from_hw", "diff_attrs"]
 SNAP_REQUIRED = ["old", "new", "rb.patching", "rb.ordering", "rb.deploying"]
 
 
@@ -488,10 +497,10 @@ def _case(hist_ids, jid, **kw):
     return c
 
 
-def judge_edge(hist_ids, rep, fresh, ctx, node_fp=None):
+def judge_edge(hist_ids, rep, fresh, ctx, node_fp=None, chain=False):
     """all checks on one edge report; hist_ids = ids of the jobs that ran before in the same process"""
     job = _JOB[rep["job"]]
-    after = _JOB[hist_ids[-1]]["jk"] if hist_ids else "<fresh>"
+    after = "<chain of all jobs>" if chain else (_JOB[hist_ids[-1]]["jk"] if hist_ids else "<fresh>")
     case = _case(hist_ids, rep["job"])
     if "child_failed" in rep:
         ctx.violation({"kind": "harness-error", "job": job["jk"], "where": "edge process died"}, case, rep["child_failed"])
@@ -564,7 +573,7 @@ def run_unit(unit, ctx):
         for i, rep in enumerate(out["replayed"]):
             ctx.transitions += 1
             prev_fp = out["replayed"][i - 1]["fp"] if i else _TEMPLATE_TOTAL
-            judge_edge(unit["h"][:i], rep, _FRESH.get(rep["job"]), ctx, node_fp=prev_fp)
+            judge_edge(unit["h"][:i], rep, _FRESH.get(rep["job"]), ctx, node_fp=prev_fp, chain=True)
             ctx.extra["fp:" + rep["fp"]] += 1
         ctx.extra["chain_edges"] += len(out["replayed"])
         if "scan" in out:
@@ -668,6 +677,8 @@ def blocks(tier, seed):
     for jid in ids:
         a, b = _FRESH.get(jid), second.get(jid)
         if a is None or b is None:
+            if any(r["capped"] for r in _PRE):
+                continue            # budget exhausted during level 1: reported as non-exhaustive, not as a violation
             nd.violation({"kind": "harness-error", "where": "fresh run missing", "job": _JOB[jid]["jk"]},
                          _case([], jid), "")
             continue
@@ -734,7 +745,7 @@ def completeness_scan():
     import annet
     root = os.path.dirname(os.path.dirname(os.path.abspath(annet.__file__)))
     findings = statehash.scan_tree(root)
-    s = statehash.global_fingerprint()
+    s = statehash.global_fingerprint(REQUIRED_GLOBALS)
     comps = set(s.digests)
     loaded = set(statehash.annet_modules())
     out = {"counts": collections.Counter(), "missing": [], "root": root}
@@ -782,7 +793,7 @@ def completeness_scan():
         elif fn.cache_info().currsize == 0 and name != "compile_ref_acl_text":
             out["missing"].append({"module": mod, "name": name, "kind": "required-lru-never-filled", "scope": "module"})
     for g in REQUIRED_GLOBALS:
-        if g not in comps:
+        if "root:" + g not in comps:
             out["missing"].append({"module": g, "name": "", "kind": "required-global", "scope": "module"})
     from annet import rulebook
     prov = rulebook.rulebook_provider_connector._cache
@@ -794,7 +805,7 @@ def completeness_scan():
     out["modules_loaded"] = len(loaded)
     out["opaque"] = sorted(s.opaque)
     out["changed_components"] = sorted(k for k, v in s.digests.items() if _TEMPLATE.get(k) != v and
-                                       (k.startswith("lru:") or k in REQUIRED_GLOBALS))
+                                       k.startswith(("lru:", "root:")))
     return out
 
 
@@ -852,11 +863,13 @@ def finish(merged, tier):
         del extra[k]
     # congruence: equal node fingerprint + same job => equal next fingerprint
     by = collections.defaultdict(dict)
+    mult = collections.Counter()
     for h, j, nfp, fp in sorted(edges):
         by[(nfp, j)].setdefault(fp, h)
+        mult[(nfp, j)] += 1
     groups = 0
     for (nfp, j), nxt in sorted(by.items()):
-        if len([1 for e in edges if e[2] == nfp and e[1] == j]) > 1:
+        if mult[(nfp, j)] > 1:
             groups += 1
         if len(nxt) > 1:
             (fa, ha), (fb, hb) = sorted(nxt.items())[:2]
